@@ -136,7 +136,9 @@ class StmtMixin:
         if node.value is None:
             return [st]
         ctx = self.new_ctx(st)
+        self.set_hints(node.target, st)
         v = self.ev(node.value, st, ctx)
+        self.clear_hints()
         self.assign(node.target, v, st, ctx, node)
         return self.split(st, ctx, node) + [st]
 
